@@ -6,6 +6,7 @@
 (***************************************************************************)
 EXTENDS Cors, Json, IOUtils, TLC
 
+CONSTANT Props      \* {"C11"}; {"C10"}: the hardening headers judged on the responses produced under every CORS configuration
 Rec == ndJsonDeserialize(IOEnv.TRACE)
 VARIABLES l, cfg, nfail
 tvars == <<l, cfg, nfail>>
@@ -15,7 +16,9 @@ Ev == Rec[l]
 TConfig == /\ l <= Len(Rec) /\ Ev.ev = "Config"
            /\ cfg' = Ev.cfg /\ l' = l + 1 /\ UNCHANGED nfail
 TReq == /\ l <= Len(Rec) /\ Ev.ev = "Req"
-        /\ LET bad == IF Ev.r.raw_len = 0 THEN {"C11.no_response"} ELSE CorsViolations(cfg, Ev.q, Ev.r) IN
+        /\ LET bad == IF Ev.r.raw_len = 0 THEN (IF "C11" \in Props THEN {"C11.no_response"} ELSE {})
+                      ELSE (IF "C11" \in Props THEN CorsViolations(cfg, Ev.q, Ev.r) ELSE {})
+                           \cup (IF "C10" \in Props THEN HardeningViolations(Ev.r) ELSE {}) IN
              /\ (IF bad = {} THEN TRUE ELSE PrintT(<<"FAIL", ToJson([i |-> l, props |-> bad])>>))
              /\ nfail' = nfail + (IF bad = {} THEN 0 ELSE 1)
         /\ l' = l + 1 /\ UNCHANGED cfg
